@@ -846,6 +846,10 @@ class SgzReader(object):
 
     def get_unstructured_mask(self):
         if self.mask is None:
+            if not isinstance(self.segy_traceheader_template[189], FileOffset):
+                # No stored inline-number array (header_detection='strip'): the constant would be used as a
+                # file offset and header bytes decoded as the mask
+                raise RuntimeError("Cannot map trace ordinals of an unstructured file which stores no INLINE_3D array")
             buffer = self.file.read_range(self.file,
                                           self.segy_traceheader_template[189],
                                           self.header_entry_length_bytes)
